@@ -31,6 +31,10 @@ def main(argv):
         return 2
     d = uncanon(json.load(open(argv[0])))
     chk = d.get("check")
+    scn = d.get("scenario", d.get("replay"))
+    if isinstance(scn, dict) and scn.get("kind") in ("send", "states", "toolkit"):
+        from . import sync_replay
+        return sync_replay.replay(d)
     from . import direct, generic
     res = None
     if d.get("kind") == "no-failing-input-found":
